@@ -268,6 +268,7 @@ func TestC12(t *testing.T) {
 	r := newRun(t, "C12", "exploration")
 	defer r.Finish()
 	r.Rule = "a real initiator (swap-out: pays fee and claim invoices; swap-in: funds the opening output and creates the claim invoice) against a scripted responder choosing the premium in {-2^63, -amount-1, -amount, -1, 0, limit, limit+1, 2^63-1, random}, fee invoices in {0, est, 3est, 3est+1, huge}, claim invoices of amount+premium plus {0, 1, 500, 999, 1000} msat, fee estimates {normal, 0, 1, error}, limit rates up to ±10^6 ppm, amounts up to 2^63/1000 sat, wallets with finite and practically unlimited balance; every money-moving crossing is compared with the statement's bounds in math/big. The responder clause (premium charged = rate arithmetic) is checked on every agreement of the C11 workload. distinct = (chain, role, premium class, fee class / wallet, paid / opened)"
+	r.Rule += " Responder clause also on a rate table whose twelve (layer, asset, direction) entries all differ: per layer sequence {built-in, stored global (changed, zero, changed again), peer-specific (non-zero, zero, negative, removed)} every (asset, direction) is requested and the agreement premium must be trunc(amount * selected rate / 10^6), the selection made by the harness from what it wrote."
 	r.Assumptions = []string{"own opening-fee estimate read from the node's wallet object", "value locked on Liquid read by unblinding with the announced blinding key (go-elements)"}
 	rng := mrand.New(mrand.NewSource(r.Seed + 12))
 	var cases []c12Case
